@@ -126,6 +126,15 @@ func (w *W) history(i int, r *vlib.Rand) {
 		budget = 3 * m
 	}
 	pool, sp := genItems(r, budget)
+	if r.Intn(3) == 0 {
+		// a share of the pool are items of high rank for this precision, several per register
+		var nhr int
+		if pool, nhr = mixHighRank(r, p, pool); nhr > 0 {
+			sp.Kind += "+high-rank"
+			c.Count("history_high_rank_items", int64(nhr))
+			c.Count("histories_with_high_rank_items", 1)
+		}
+	}
 	used := 0
 	var log []string
 	fails := 0
